@@ -13,6 +13,7 @@ ROOT=/tmp/seedrun-root-$SEED-$CHECK
 rm -rf "$ROOT"; mkdir -p "$ROOT"
 for d in api harness checks bin known_findings.jsonl regex; do [ -e /verif/$d ] && ln -s /verif/$d "$ROOT/$d"; done
 export GOFLAGS=-mod=mod GOPROXY=off GOSUMDB=off GOTOOLCHAIN=local
+(cd /verif/engine && go build -o ../bin/gosmt .) || exit 2
 VERIF_REPO="$WT" VERIF_ROOT="$ROOT" timeout ${SEED_TIMEOUT:-1800} /verif/bin/gosmt check "$CHECK" "$@" > "/tmp/seedrun-$SEED-$CHECK.log" 2>&1
 rc=$?
 git -C /repo worktree remove --force "$WT" >/dev/null 2>&1; rm -rf "$WT"
